@@ -16,14 +16,25 @@ def replace_env():
     return out
 
 
-def instrument(ctx):
-    """Returns (path of the instrumented copy, error)."""
+def instrument(ctx, tolerant=False):
+    """Returns (path of the instrumented copy, error).  tolerant=True: returns (path, error, warning);
+    warning is set (and the copy usable) when the copy could be written but expected calls are missing
+    (exit status 3 of tools/instrument): the caller runs the harness on it to look for a failing input
+    and then records the warning as a broken correspondence."""
     os.makedirs(ctx.ovdir, exist_ok=True)
     src = replace_env().get(UV, os.path.join(core.REPO, UV))
     out = os.path.join(ctx.ovdir, "unix_volume_instrumented.go")
+    if os.path.exists(out):
+        os.remove(out)
     pts = os.path.join(ctx.ovdir, "unix_volume_points.json")
     rc, log, _ = core.run(["go", "run", "main.go", "-in", src, "-out", out, "-points", pts],
                           cwd=os.path.join(core.VERIF, "tools", "instrument"), env=core.GOENV, timeout=300)
+    if tolerant:
+        if (rc == 3 or "exit status 3" in log) and os.path.exists(out):   # `go run` reports the program's status in its output
+            return out, None, "tools/instrument: expected calls missing in %s: %s" % (src, log[-2000:])
+        if rc != 0:
+            return None, "tools/instrument failed on %s (rc=%d): %s" % (src, rc, log[-2000:]), None
+        return out, None, None
     if rc != 0:
         return None, "tools/instrument failed on %s (rc=%d): %s" % (src, rc, log[-2000:])
     return out, None
